@@ -296,7 +296,7 @@ func TestSim(t *testing.T) {
 		if len(res.Samples) < 2 && len(tr.Violations) == 0 && len(tr.Samples) > 0 {
 			res.Samples = append(res.Samples, tr.Samples[0])
 		}
-		if res.Runs%a.Recheck == 1 {
+		if res.Runs%a.Recheck == 1 && !prop.NoRecheck {
 			tr2 := runPlan(t, p, false)
 			res.Rechecks++
 			if tr2 == nil || tr2.Fingerprint() != tr.Fingerprint() {
